@@ -1388,6 +1388,15 @@ class InBodyPhase(Phase):
         # http://svn.whatwg.org/webapps/complete.html#adoptionAgency revision 7867
         # XXX Better parseError messages appreciated.
 
+        # If the current node is an HTML element with the token's name that
+        # is not in the list of active formatting elements, just pop it
+        currentNode = self.tree.openElements[-1]
+        if (currentNode.name == token["name"] and
+                currentNode.namespace == self.tree.defaultNamespace and
+                currentNode not in self.tree.activeFormattingElements):
+            self.tree.openElements.pop()
+            return
+
         # Step 1
         outerLoopCounter = 0
 
